@@ -211,6 +211,7 @@ type Exec struct {
 	dropped   int
 	sample    string
 	facts     map[uint64][]fact
+	cur       *coro
 	deferFrame []*frame
 	lockHook  func(name string, recv Value)
 }
@@ -771,6 +772,7 @@ func (e *Explorer) runPath(solver *smt.Portfolio, mc *modelCache, it WorkItem) (
 				}
 			}
 		}()
+		defer ex.abortCoros()
 		ex.call(&Closure{fn: e.cfg.Entry}, nil, nil)
 	}()
 	e.mu.Lock()
